@@ -150,6 +150,8 @@ pub struct TypeInfo {
     pub id: u16,
     pub has_blob: bool,
     pub has_streamed: bool,
+    /// closed by a TLV option stream (#[derive(SerBoltTlvOptions)])
+    pub has_tlv: bool,
     pub dispatched: bool,
     pub gen: fn(&mut Gen) -> Box<dyn AnyMsg>,
 }
@@ -899,6 +901,35 @@ fn enc_len(m: &dyn AnyMsg) -> Option<usize> {
     catch_unwind(AssertUnwindSafe(|| m.bytes().len())).ok()
 }
 
+/// encoded length of the all-maximal value of `ti` with variable-length site `s` forced to `l`
+fn site_len(ti: &TypeInfo, base: u64, s: usize, l: usize) -> Option<usize> {
+    let (m, _) = gen_value(ti, base, Profile::Max, Some((s, l)));
+    enc_len(&*m)
+}
+/// largest value v <= cap of site `s` whose encoding has at most `total` bytes (length prefixes of
+/// enclosing records may grow with v, so the linear estimate is corrected by measuring)
+fn fit_to(ti: &TypeInfo, base: u64, s: usize, total: usize, cap: usize) -> Option<usize> {
+    let l0 = site_len(ti, base, s, 0)?;
+    let l1 = site_len(ti, base, s, 1)?;
+    if l0 > total || l1 <= l0 {
+        return None;
+    }
+    let unit = l1 - l0;
+    let mut v = ((total - l0) / unit).min(cap);
+    for _ in 0..64 {
+        let l = site_len(ti, base, s, v)?;
+        if l <= total {
+            break;
+        }
+        let over = l - total;
+        v = v.saturating_sub((over + unit - 1) / unit);
+    }
+    while v < cap && site_len(ti, base, s, v + 1)? <= total {
+        v += 1;
+    }
+    if site_len(ti, base, s, v)? <= total { Some(v) } else { None }
+}
+
 fn msgs_domain(args: &Args) {
     let thorough = args.tier == "thorough";
     let only: Option<&String> = args.rest.iter().find(|a| !a.starts_with("--"));
@@ -927,39 +958,55 @@ fn msgs_domain(args: &Args) {
         }
         // 3. every variable-length site (as met in the all-maximal value) driven to its limits
         let nsites = gmax.kinds.len();
-        let site_budget = if thorough { nsites } else { nsites.min(4) };
+        let site_budget = if thorough || ti.has_tlv { nsites } else { nsites.min(4) };
         // quick: rotate which sites are taken by seed
         let first = if nsites > site_budget { (args.seed as usize) % nsites } else { 0 };
         for j in 0..site_budget {
             let s = (first + j) % nsites;
             let kind = gmax.kinds[s];
-            let len_at = |l: usize| -> Option<usize> {
-                let (m, _) = gen_value(ti, base, Profile::Max, Some((s, l)));
-                enc_len(&*m)
-            };
-            let (l0, l1) = match (len_at(0), len_at(1)) {
-                (Some(a), Some(b)) => (a, b),
-                _ => continue,
-            };
-            let unit = l1 - l0; // bytes per element / per byte of content
+            let len_at = |l: usize| -> Option<usize> { site_len(ti, base, s, l) };
             let cap: usize = match kind {
                 "octets" | "array" => 65535,
                 _ => usize::MAX,
             };
-            let fit = if l0 > MAX_MESSAGE_SIZE { 0 } else { (MAX_MESSAGE_SIZE - l0) / unit };
-            // largest value of the site that is both denotable and fits
-            let top = fit.min(cap);
+            // largest value of the site that is both denotable and fits MAX_MESSAGE_SIZE
+            let top = match fit_to(ti, base, s, MAX_MESSAGE_SIZE, cap) {
+                Some(t) => t,
+                None => continue,
+            };
+            let ltop = len_at(top).unwrap_or(0);
             let (m, _) = gen_value(ti, base, Profile::Max, Some((s, top)));
-            emit_case(ti, &*m, "site-max", 0, &format!("site {} ({}) = {}", s, kind, top), base, &mut st);
-            if top == fit {
+            emit_case(ti, &*m, "site-max", 0, &format!("site {} ({}) = {} (total {})", s, kind, top, ltop), base, &mut st);
+            if ltop == MAX_MESSAGE_SIZE {
+                st.by_kind.entry("size-exact".into()).and_modify(|x| *x += 1).or_insert(1);
+            }
+            if top < cap {
                 // one more: over MAX_MESSAGE_SIZE (only reported by from_vec)
-                if top + 1 <= cap {
-                    let (m, _) = gen_value(ti, base, Profile::Max, Some((s, top + 1)));
-                    emit_case(ti, &*m, "size-over", 1, &format!("site {} ({}) = {}", s, kind, top + 1), base, &mut st);
+                let (m, _) = gen_value(ti, base, Profile::Max, Some((s, top + 1)));
+                emit_case(ti, &*m, "size-over", 1, &format!("site {} ({}) = {}", s, kind, top + 1), base, &mut st);
+            }
+            // total encoded sizes around 2^16: the largest values with total <= 65535, 65536, 65537
+            let mut seen64: Vec<usize> = vec![];
+            for t in [65535usize, 65536, 65537] {
+                if let Some(v) = fit_to(ti, base, s, t, cap) {
+                    if v > 0 && !seen64.contains(&v) {
+                        seen64.push(v);
+                        let (m, _) = gen_value(ti, base, Profile::Max, Some((s, v)));
+                        let l = len_at(v).unwrap_or(0);
+                        emit_case(ti, &*m, "size-64k", 0, &format!("site {} ({}) = {} (total {})", s, kind, v, l), base, &mut st);
+                    }
                 }
-                // exactly MAX_MESSAGE_SIZE when the unit is one byte
-                if unit == 1 && l0 + top == MAX_MESSAGE_SIZE {
-                    st.by_kind.entry("size-exact".into()).and_modify(|x| *x += 1).or_insert(1);
+            }
+            // a TLV option stream: every stream length from just below 2^16 to well past it, so that
+            // some record ends exactly at byte 65535 with further records behind it
+            if ti.has_tlv && kind == "array" {
+                if let Some(c0) = fit_to(ti, base, s, 65535, cap) {
+                    let lo = c0.saturating_sub(if thorough { 40 } else { 12 });
+                    let hi = (c0 + 150).min(top);
+                    for v in lo..=hi {
+                        let (m, _) = gen_value(ti, base, Profile::Max, Some((s, v)));
+                        emit_case(ti, &*m, "tlv-sweep", 0, &format!("site {} (array) = {}", s, v), base, &mut st);
+                    }
                 }
             }
             if top == cap {
@@ -1098,24 +1145,66 @@ fn framed_domain(args: &Args) {
     let mut write_differs = 0u64;
     let mut types_seen: std::collections::BTreeSet<&'static str> = Default::default();
     let mut max_stream = 0usize;
+    // sequence specifications: (type index, seed, profile, forced site)
+    type Spec = (usize, u64, Profile, Option<(usize, usize)>);
+    let mut specs: Vec<Vec<Spec>> = vec![];
     for j in 0..args.n {
         // every registry type comes first or second in some sequence (2 per sequence, in order)
         let mut tix = vec![(2 * j) % ntypes, (2 * j + 1) % ntypes];
         for _ in 0..rng.below(3) {
             tix.push(rng.below(ntypes as u64) as usize);
         }
-        let mut sent: Vec<(&TypeInfo, Box<dyn AnyMsg>)> = vec![];
-        let mut stream: Vec<u8> = vec![];
-        let mut violation = String::new();
+        let mut seq: Vec<Spec> = vec![];
         for (k, t) in tix.iter().enumerate() {
-            let ti = &TYPES[*t];
             let seed = args.seed.wrapping_mul(7121).wrapping_add((j * 16 + k) as u64);
-            let (profile, target) = match (j + k) % 9 {
+            let (profile, mut target) = match (j + k) % 9 {
                 0 => (Profile::Min, None),
                 1 => (Profile::Max, None),
                 2 if k == 0 => (Profile::Max, Some((0usize, 1500usize))), // a long message inside a stream
                 _ => (Profile::Rand, None),
             };
+            // every 4th sequence starts with a message of exactly 65536 bytes (or the nearest below)
+            if j % 4 == 3 && k == 0 {
+                if let Some(v) = fit_to(&TYPES[*t], seed, 0, 65536, 65535) {
+                    target = Some((0, v));
+                }
+            }
+            let profile = if target.is_some() { Profile::Max } else { profile };
+            seq.push((*t, seed, profile, target));
+        }
+        specs.push(seq);
+    }
+    // TLV option streams around 2^16 and up to the frame limit, followed by another message
+    for (t, ti) in TYPES.iter().enumerate() {
+        if !ti.has_tlv {
+            continue;
+        }
+        let seed = args.seed.wrapping_mul(991).wrapping_add(t as u64);
+        let (_, g) = gen_value(ti, seed, Profile::Max, None);
+        // ... one string record filling the frame to MAX_MESSAGE_SIZE
+        if let Some(site) = g.kinds.iter().position(|k| *k == "wirestring") {
+            if let Some(v) = fit_to(ti, seed, site, MAX_MESSAGE_SIZE, usize::MAX) {
+                specs.push(vec![(t, seed, Profile::Max, Some((site, v))), (0, seed ^ 1, Profile::Rand, None)]);
+            }
+        }
+        if let Some(site) = g.kinds.iter().position(|k| *k == "array") {
+            if let (Some(c0), Some(top)) = (fit_to(ti, seed, site, 65535, 65535), fit_to(ti, seed, site, MAX_MESSAGE_SIZE, 65535)) {
+                let mut counts: Vec<usize> = (c0.saturating_sub(2)..c0 + 3).collect();
+                counts.extend((1..8).map(|i| c0 + 20 * i));
+                counts.push(top);
+                for c in counts {
+                    specs.push(vec![(t, seed, Profile::Max, Some((site, c.min(top)))), (0, seed ^ 1, Profile::Rand, None)]);
+                }
+            }
+        }
+    }
+    for (j, seq) in specs.iter().enumerate() {
+        let mut sent: Vec<(&TypeInfo, Box<dyn AnyMsg>)> = vec![];
+        let mut stream: Vec<u8> = vec![];
+        let mut violation = String::new();
+        for (t, seed, profile, target) in seq.iter() {
+            let ti = &TYPES[*t];
+            let (seed, profile, target) = (*seed, *profile, *target);
             let (m, _) = gen_value(ti, seed, profile, target);
             let (m2, _) = gen_value(ti, seed, profile, target); // the same value again: write consumes it
             let payload = m.bytes();
@@ -1307,7 +1396,7 @@ fn framed_domain(args: &Args) {
         run(n.to_be_bytes()[..cut].to_vec(), "short-length-prefix");
     }
     drop(run);
-    emit("STATS", json!({"domain": "wire-framed", "sequences": args.n, "messages": n_msgs, "types": types_seen.len(),
+    emit("STATS", json!({"domain": "wire-framed", "sequences": specs.len(), "messages": n_msgs, "types": types_seen.len(),
                          "registry_types": ntypes, "write_differs_from_write_vec": write_differs, "monitor_violations": monitor,
                          "max_stream_len": max_stream, "malformed_frames": n_mal, "malformed_kinds": kinds}));
 }
